@@ -82,6 +82,10 @@ def conn_stage(v, wd, tier, cov, bindir):
                 for rep in range(3 if thorough else 1):
                     scs.append({"call": call, "nonblock": c["nonblock"], "limited": c["limited"], "script": c["script"], "where": where,
                                 "kinds": " ".join(kinds), "src": "tlc"})
+    for call in ("connect", "accept", "accept4"):
+        for where in ("thread", "co"):
+            scs.append({"call": call, "nonblock": False, "limited": False, "script": [{"k": "err"}], "where": where, "badfd": True,
+                        "kinds": "err", "src": "bad-descriptor"})
     for i, s in enumerate(scs):
         s["id"] = i + 1
         s["errno_entry"] = [0, 4, 11, 115][i % 4]
@@ -159,6 +163,14 @@ def run(pid, tier):
         scs = rng.sample(scs, cap)
     if pid == "C18":
         scs += duplex_scenarios(3 if thorough else 1)
+        # a descriptor that is not open: every hooked call hands the kernel's refusal back (and leaves without ado)
+        for call, vec, msg, rd, shape in (("recv", False, False, True, [3]), ("read", False, False, True, [3]), ("recvfrom", False, False, True, [3]),
+                                          ("readv", True, False, True, [1, 2]), ("recvmsg", True, True, True, [1, 2]),
+                                          ("send", False, False, False, [3]), ("write", False, False, False, [3]), ("sendto", False, False, False, [3]),
+                                          ("writev", True, False, False, [1, 2]), ("sendmsg", True, True, False, [1, 2])):
+            for where in ("thread", "co"):
+                scs.append({"call": call, "shape": shape, "vec": vec, "msg": msg, "isRead": rd, "nonblock": False, "where": where, "badfd": True,
+                            "script": [{"k": "err", "n": 0}], "src": "bad-descriptor"})
     for i, s in enumerate(scs):
         s["id"] = i + 1
         s["limit_ms"] = 40 if any(x["k"] == "timeout" for x in s["script"]) else 0
